@@ -184,39 +184,7 @@ def run(ctx):
             if not any(t in ann for t in VALUE_TYPES):
                 continue
             n_r3 += 1
-
-            def declared(c, p=p):
-                if c.op != 'in':
-                    return False
-                return (mentions_param_attr(c.left, p, 'name')) and mentions_self_attr(c.right, 'results')
-
-            ok = True
-            for call, stmt, before in appends:
-                if gate_with(before, declared, 'ValueError'):
-                    continue
-                # conditional form: a ValueError exit guarded only by isinstance tests on p plus the membership test
-                found = False
-                for ex in ff.raise_exits():
-                    if ex.exc != 'ValueError':
-                        continue
-
-                    def undeclared(c, p=p):
-                        return c.op == 'notin' and mentions_param_attr(c.left, p, 'name') and \
-                            mentions_self_attr(c.right, 'results')
-                    if not gate_with(ex.state, undeclared):
-                        continue
-                    extra = [f for k, f in ex.state.facts.items() if k not in before.facts]
-                    def benign(f, p=p):
-                        t = f.test
-                        if isinstance(t, ast.Call) and isinstance(t.func, ast.Name) and t.func.id == 'isinstance' \
-                                and isinstance(root_of_expr(t.args[0]), Param) and root_of_expr(t.args[0]).name == p:
-                            return True
-                        return any(undeclared(c) for c in __import__('psa.flow', fromlist=['x']).normalise_fact(f))
-                    if all(benign(f) for f in extra):
-                        found = True
-                        break
-                if not found:
-                    ok = False
+            ok = declared_gate(m, ff, appends, p)
             ctx.ob('C16.R3', m, m.node.lineno, f"{m.name}({p}: {ann}) requires `{p}` to be declared", ok,
                    fact='gate `<name> not in self.results -> ValueError` ' + ('dominates' if ok else 'does not dominate')
                         + ' self.steps.append',
@@ -319,6 +287,44 @@ def run(ctx):
             'exhaustive': True,
             'coverage': {'public_methods': len(public), 'mutators': [m.name for m in mutators],
                          'queries': [m.name for m in queries], 'state_attributes': sorted(state_attrs)}}
+
+
+def steps_appends(ff):
+    return [(c, s, b) for c, s, b in ff.calls if isinstance(c.func, ast.Attribute) and c.func.attr == 'append'
+            and path_from_param(c.func.value) == ('self', ['steps'])]
+
+
+def declared_gate(m, ff, appends, p):
+    """Is every `self.steps.append` of method m reachable only if parameter p (when it is a Container / Plate / slice)
+    passed a `name in self.results` test whose failure raises ValueError?"""
+    from ..flow import normalise_fact
+
+    def declared(c):
+        return c.op == 'in' and mentions_param_attr(c.left, p, 'name') and mentions_self_attr(c.right, 'results')
+
+    def undeclared(c):
+        return c.op == 'notin' and mentions_param_attr(c.left, p, 'name') and mentions_self_attr(c.right, 'results')
+
+    def benign(f):
+        t = f.test
+        if isinstance(t, ast.Call) and isinstance(t.func, ast.Name) and t.func.id == 'isinstance' \
+                and isinstance(root_of_expr(t.args[0]), Param) and root_of_expr(t.args[0]).name == p:
+            return True
+        return any(undeclared(c) for c in normalise_fact(f))
+    for call, stmt, before in appends:
+        if gate_with(before, declared, 'ValueError'):
+            continue
+        found = False
+        for ex in ff.raise_exits():
+            if ex.exc != 'ValueError' or not gate_with(ex.state, undeclared):
+                continue
+            extra = [f for k, f in ex.state.facts.items() if k not in before.facts]
+            if all(benign(f) for f in extra):
+                found = True
+                break
+        if not found:
+            return False
+    return True
 
 
 def _stage_rules(ctx, recipe, ffb):
